@@ -11,8 +11,8 @@ import (
 	"github.com/yorkie-team/yorkie/pkg/document/crdt"
 	"github.com/yorkie-team/yorkie/pkg/document/json"
 	"github.com/yorkie-team/yorkie/pkg/document/presence"
-	"github.com/yorkie-team/yorkie/pkg/document/yson"
 	"github.com/yorkie-team/yorkie/pkg/document/time"
+	"github.com/yorkie-team/yorkie/pkg/document/yson"
 	"github.com/yorkie-team/yorkie/server/backend/database"
 	"github.com/yorkie-team/yorkie/server/packs"
 )
@@ -146,14 +146,14 @@ func (w *World) summarize(point string, kv []any) map[string]any {
 		req := kv[2].(*change.Pack)
 		opts := kv[3].(packs.PushPullOptions)
 		out := map[string]any{
-			"client": w.ActorName(ci.ID.String()),
-			"docid":  dk.DocID.String(),
-			"dockey": req.DocumentKey.String(),
-			"req":    w.packSummary(req),
-			"status": statusName(opts.Status),
+			"client":   w.ActorName(ci.ID.String()),
+			"docid":    dk.DocID.String(),
+			"dockey":   req.DocumentKey.String(),
+			"req":      w.packSummary(req),
+			"status":   statusName(opts.Status),
 			"pushonly": opts.Mode == types.SyncModePushOnly,
-			"gcoff":  opts.DisableGC,
-			"nopres": opts.DisablePresence,
+			"gcoff":    opts.DisableGC,
+			"nopres":   opts.DisablePresence,
 		}
 		if cdi := ci.Documents[dk.DocID]; cdi != nil {
 			out["ci"] = map[string]any{"st": cdi.Status, "s": cdi.ServerSeq, "c": int64(cdi.ClientSeq), "epoch": cdi.Epoch}
@@ -215,23 +215,22 @@ func (w *World) RepState(c *Cli, d string) map[string]any {
 		return doc.Root().Marshal()
 	}()
 	return map[string]any{
-		"st":      statusName(doc.Status()),
-		"content": doc.Marshal(),
-		"root":    root,
-		"cp":      cpOf(doc.Checkpoint()),
-		"vv":      w.vv(doc.VersionVector()),
-		"lam":     doc.InternalDocument().Lamport(),
-		"pend":    pend,
-		"garbage": doc.GarbageLen(),
-		"pres":    w.PresString(doc.AllPresences()),
-		"undo":    doc.CanUndo(),
-		"redo":    doc.CanRedo(),
-		"undon":   doc.UndoStackLenForTest(),
+		"st":       statusName(doc.Status()),
+		"content":  doc.Marshal(),
+		"root":     root,
+		"cp":       cpOf(doc.Checkpoint()),
+		"vv":       w.vv(doc.VersionVector()),
+		"lam":      doc.InternalDocument().Lamport(),
+		"pend":     pend,
+		"garbage":  doc.GarbageLen(),
+		"pres":     w.PresString(doc.AllPresences()),
+		"undo":     doc.CanUndo(),
+		"redo":     doc.CanRedo(),
+		"undon":    doc.UndoStackLenForTest(),
 		"ncontent": NormContent(doc),
-		"sess":    r.Sess,
+		"sess":     r.Sess,
 	}
 }
-
 
 // NormContent is the content as characters / XML rather than internal chunking
 // (C14 compares undo results this way): text nodes are concatenated.
